@@ -283,7 +283,8 @@ def r5(ctx):
                   'update)): %r' % e, c.ln)
     bld = ctx.anchor(R, 'track::builder::TrackBuilder::build')
     if bld is not None:
-        ao = bld.find_calls('track::Track::add_observation')
+        from lib import deep_calls
+        ao = deep_calls(ctx.F, bld, 'track::Track::add_observation')
         ctx.check(len(ao) >= 1, R, bld, 'build->add_observation', '', 'TrackBuilder::build no longer adds its '
                   'observations through Track::add_observation')
     nt = ctx.anchor(R, S.STORE + '::new_track')
@@ -356,31 +357,38 @@ def r8(ctx):
             ctx.fail(R, b, 'blocking-shard-access:' + b.npath.rsplit('::', 1)[-1], '%s uses %s on a shard: while a '
                      'worker holds the shard the method sees it as empty / skips it, so counts and contents are wrong' % (
                          b.npath.rsplit('::', 1)[-1], c.name), c.ln)
+    from lib import effective_sites, iteration_context
     for name in ('clear', 'shard_stats'):
         b = ctx.anchor(R, S.STORE + '::' + name)
         if b is None:
             continue
         eb = ExprBuilder(b)
-        its = [c for c in b.find_calls('into_iter', 'iter') if eb.operand(c.args[0]).has_place(root=('param', 1),
-                                                                                                field='stores')]
+        # the per-shard operation (HashMap::len / HashMap::clear) runs once for every shard: it sits in a loop, or in
+        # the closure of a for_each / map, over self.stores as a whole
+        op = 'std::collections::HashMap::len' if name == 'shard_stats' else 'std::collections::HashMap::clear'
+        sites = effective_sites(F, b, op)
         idx = b.find_calls('core::slice::get', 'get_store')
-        ctx.check(bool(its) and not idx, R, b, name + ':whole-iteration', 'iterates self.stores whole',
+        whole = False
+        for site, c, o in sites:
+            its = iteration_context(F, b, o, c.bb)
+            whole = whole or any(e.has_place(root=('param', 1), field='stores') for e in its)
+        ctx.check(whole and not idx, R, b, name + ':whole-iteration', 'iterates self.stores whole',
                   '%s does not iterate all shards' % name)
         if name == 'shard_stats':
-            # each shard contributes len() exactly once per iteration
-            from lib import deep_calls
-            lens = deep_calls(F, b, 'std::collections::HashMap::len')
-            pushes = b.find_calls('std::vec::Vec::push')
-            if lens and lens[0][0] is b:
-                ok = len(lens) == 1 and len(pushes) == 1 and eb.operand(pushes[0].args[1]).has_call('len')
-            else:
-                # iterator form: stores.iter().map(|s| s.lock().len()).collect()
-                ok = len(lens) == 1 and ExprBuilder(lens[0][0]).place(0, ()).has_call('len') and \
-                    eb.place(0, ()).has_call('collect') and eb.place(0, ()).has_call('map')
+            ok = len(sites) == 1
+            if ok:
+                site, c, o = sites[0]
+                if o is b:
+                    pushes = b.find_calls('std::vec::Vec::push')
+                    ok = len(pushes) == 1 and eb.operand(pushes[0].args[1]).has_call('len')
+                else:
+                    # closure form: map(|s| s.lock().len()).collect() or for_each(|s| v.push(s.lock().len()))
+                    ro = ExprBuilder(o).place(0, ())
+                    pushes = o.find_calls('std::vec::Vec::push')
+                    ok = ro.has_call('len') or (len(pushes) == 1 and ExprBuilder(o).operand(pushes[0].args[1]).has_call('len'))
             ctx.check(ok, R, b, 'shard_stats:len-per-shard', '', 'shard_stats does not report len() of every shard')
         else:
-            ctx.check(bool(b.find_calls('std::collections::HashMap::clear')), R, b, 'clear:clears', '',
-                      'clear does not clear the shards')
+            ctx.check(bool(sites), R, b, 'clear:clears', '', 'clear does not clear the shards')
 
 
 def _wiring(ctx):
